@@ -174,10 +174,13 @@ def check_case(case):
     if q > 1e-12 * qscale:
         v.append(("no_increase", "q(d)=%.3g > 0 (scale %.3g)" % (q, qscale)))
     qc = cauchy_decrease(xopt, g, H, sl, su, delta)
-    if q > qc + 1e-10 * qscale:
+    # the step is returned as d = clip(xopt + d) - xopt, so every component carries an absolute rounding error of about
+    # eps*|xopt_i| whatever the size of delta (it matters when delta << |xopt|): allow its first-order effect on q
+    xo_round = 2.0 * n * np.finfo(float).eps * (float(np.max(np.abs(xopt))) if n else 0.0)
+    if q > qc + 1e-10 * qscale + xo_round * (gs + hs * delta):
         v.append(("cauchy", "q(d)=%.6g but the truncated steepest-descent step achieves %.6g (scale %.3g)" % (q, qc, qscale)))
     want = g + H.dot(d)
-    if np.max(np.abs(gnew - want)) > 1e-10 * max(gs + hs * nd, 1e-300):
+    if np.max(np.abs(gnew - want)) > 1e-10 * max(gs + hs * nd, 1e-300) + xo_round * hs * n:
         v.append(("gradient", "returned gradient differs from g+Hd by %.3g (scale %.3g)" % (
             float(np.max(np.abs(gnew - want))), gs + hs * nd)))
     if qc < -1e-14 * qscale:
